@@ -5,9 +5,9 @@ cd /verif || exit 2
 for d in seeded/*/; do
   s=$(basename $d)
   prop=$(grep "^$s " tools/selftest_expect.txt | awk '{print $2}'); [ -z "$prop" ] && prop=${s%%-*}
-  git -C /repo apply $d/patch.diff || { echo "$s: patch does not apply"; continue; }
+  git -C /repo apply /verif/$d/patch.diff || { echo "$s: patch does not apply"; continue; }
   (timeout 3000 ./check $prop quick > $d/check_output.txt 2>&1); rc=$?
-  git -C /repo apply -R $d/patch.diff
+  git -C /repo apply -R /verif/$d/patch.diff
   nviol=$(grep -c '^VIOLATION' $d/check_output.txt)
   first=$(grep -m3 '^VIOLATION' $d/check_output.txt | sed 's/.*obligation=//' | tr '\n' ';')
   und=$(grep -c '^UNDECIDED' $d/check_output.txt)
